@@ -11,7 +11,9 @@ import (
 	"fmt"
 	"io"
 	"net"
+	"os"
 	"runtime"
+	"strconv"
 	"strings"
 	"sync"
 	"sync/atomic"
@@ -518,7 +520,7 @@ func ExecSess(c CaseSess) *vkit.Result {
 		}
 		select {
 		case <-r.peerDone:
-		case <-time.After(patience):
+		case <-time.After(allTimersFired):
 			return res.Failf("peer-sees-no-end", "session %d (%+v): the session ended and closed its connection but the reading peer never saw EOF or an error", r.idx, r.spec)
 		}
 		e := classify(r)
@@ -571,14 +573,36 @@ func (h *holdHandler) Read(s *stcp.Session) error {
 }
 func (h *holdHandler) OnExit(s *stcp.Session) { h.exits.Add(1) }
 
-func freePort() (string, error) {
-	ln, err := net.Listen("tcp", "127.0.0.1:0")
+// ownListenPorts returns the TCP ports this process is listening on (IPv4),
+// from /proc/self/net/tcp joined with the socket inodes of /proc/self/fd.
+func ownListenPorts() map[int]bool {
+	out := map[int]bool{}
+	inodes := map[string]bool{}
+	fds, err := os.ReadDir("/proc/self/fd")
 	if err != nil {
-		return "", err
+		return out
 	}
-	addr := ln.Addr().String()
-	ln.Close()
-	return addr, nil
+	for _, fd := range fds {
+		if l, err := os.Readlink("/proc/self/fd/" + fd.Name()); err == nil && strings.HasPrefix(l, "socket:[") {
+			inodes[strings.TrimSuffix(strings.TrimPrefix(l, "socket:["), "]")] = true
+		}
+	}
+	raw, err := os.ReadFile("/proc/self/net/tcp")
+	if err != nil {
+		return out
+	}
+	for i, line := range strings.Split(string(raw), "\n") {
+		f := strings.Fields(line)
+		if i == 0 || len(f) < 10 || f[3] != "0A" || !inodes[f[9]] {
+			continue
+		}
+		if j := strings.IndexByte(f[1], ':'); j >= 0 {
+			if p, err := strconv.ParseInt(f[1][j+1:], 16, 32); err == nil {
+				out[int(p)] = true
+			}
+		}
+	}
+	return out
 }
 
 type dialled struct {
@@ -606,31 +630,39 @@ func ExecSrv(c CaseSrv) *vkit.Result {
 	if left := sessionGoroutines(); len(left) > 0 {
 		vkit.Infra("session goroutines of an earlier case are still alive: %d", len(left))
 	}
-	addr, err := freePort()
-	if err != nil {
-		vkit.Infra("no free port: %v", err)
-	}
+	// The server listens on port 0 itself (no probe-then-reuse window in which another
+	// process could take the port, or dial ours); the port it got is read back from the
+	// process's own listening sockets in /proc.
 	h := &holdHandler{}
 	mgr := stcp.NewSessionMgr(h, stcp.WithReadTimeout(longTO), stcp.WithWriteTimeout(longTO))
-	srv := stcp.NewTCPSrv(addr, mgr)
+	srv := stcp.NewTCPSrv("127.0.0.1:0", mgr)
+	beforePorts := ownListenPorts()
 	errCh := srv.Start(stcp.WithMaxConn(int32(c.MaxConn)))
-	var probe net.Conn
+	addr := ""
 	if !waitFor(func() bool {
 		select {
 		case e := <-errCh:
-			vkit.Infra("server did not start on %s (port clash?): %v", addr, e)
+			vkit.Infra("server did not start: %v", e)
 		default:
 		}
-		var derr error
-		probe, derr = net.DialTimeout("tcp", addr, time.Second)
-		return derr == nil
+		for p := range ownListenPorts() {
+			if !beforePorts[p] {
+				addr = fmt.Sprintf("127.0.0.1:%d", p)
+				return true
+			}
+		}
+		return false
 	}, patience) {
-		vkit.Infra("server on %s never accepted a probe connection", addr)
+		vkit.Infra("the server's listening socket did not show up in /proc/self/net/tcp within %v", patience)
+	}
+	probe, derr := net.DialTimeout("tcp", addr, 5*time.Second)
+	if derr != nil {
+		vkit.Infra("cannot dial the server at %s: %v", addr, derr)
+	}
+	if !waitFor(func() bool { return mgr.ConnCount() == 1 }, patience) {
+		vkit.Infra("probe connection to %s was not turned into a session within %v", addr, patience)
 	}
 	// the probe occupies a session until we close it; wait until it is gone again
-	if !waitFor(func() bool { return mgr.ConnCount() == 1 }, patience) {
-		vkit.Infra("probe connection was not turned into a session within %v", patience)
-	}
 	probe.Close()
 	if !waitFor(func() bool { return mgr.ConnCount() == 0 }, patience) {
 		_ = srv.Close()
